@@ -1,4 +1,7 @@
 """C04 — constraints and solver paths."""
+import os
+from tools.py2lean import gen_c04
+
 LEAN_TARGETS = ["EasyFEAVerif.Props.C04"]
 PROPS_MODULES = ["EasyFEAVerif.Props.C04"]
 TRUSTED_EXTRA = [
@@ -12,4 +15,6 @@ ASSUMPTIONS = [
 
 
 def generate(repo, lean_dir):
-    return dict(model="hand-written: lean/EasyFEAVerif/Model/Constraints.lean", tie="correspondence")
+    d = gen_c04.write(repo, os.path.join(lean_dir, "EasyFEAVerif", "Gen", "C04"))
+    return dict(model="hand-written: lean/EasyFEAVerif/Model/Constraints.lean (statements of the elimination solver pinned by Gen/C04/Solver.lean)",
+                tie="statement-level translation + correspondence", extracted=d["forms"])
